@@ -18,8 +18,9 @@ def place_key(pl):
 
 
 class Walker:
-    def __init__(self, fn, sigma, watch, classify=None, max_paths=200000, decide=None, edge_watch=None):
+    def __init__(self, fn, sigma, watch, classify=None, max_paths=200000, decide=None, edge_watch=None, decide_variant=None):
         self.decide = decide
+        self.decide_variant = decide_variant    # optional: (fn, block, switch, sigma) -> variant name the scrutinee visibly has in this cell
         self.edge_watch = edge_watch      # optional: event for a switch edge taken, called with (fn, block, index | "o")
         self.fn = fn
         self.sigma = sigma
@@ -101,7 +102,13 @@ class Walker:
         elif k == "switch":
             forced = None
             d = t["discr"]
-            if "discr_of" in t:
+            dv = self.decide_variant(self.fn, bid, t, self.sigma) if (self.decide_variant is not None and "discr_of" in t) else None
+            if dv is not None:
+                forced = t["otherwise"]
+                for v, tb, name in t["targets"]:
+                    if name == dv:
+                        forced = tb
+            elif "discr_of" in t:
                 pk = place_key(t["discr_of"])
                 vmap = None
                 if self.classify is not None:
@@ -175,7 +182,7 @@ def walk(fn, sigma, watch, classify=None):
     return w.run()
 
 
-def decision_table(fn, domains, classify, watch, decide=None, edge_watch=None, watch_for=None):
+def decision_table(fn, domains, classify, watch, decide=None, edge_watch=None, watch_for=None, decide_variant=None):
     """enumerate all assignments of `domains` ({name: [variants]}) and return
     {tuple(sorted sigma items): set(event sequences)} plus the number of tracked switches seen"""
     import itertools
@@ -184,7 +191,8 @@ def decision_table(fn, domains, classify, watch, decide=None, edge_watch=None, w
     for combo in itertools.product(*[domains[n] for n in names]):
         sigma = dict(zip(names, combo))
         # watch_for(sigma) builds a watcher that may evaluate values under the cell's assumptions (path-sensitive events)
-        w = Walker(fn, sigma, watch_for(sigma) if watch_for is not None else watch, classify, decide=decide, edge_watch=edge_watch)
+        w = Walker(fn, sigma, watch_for(sigma) if watch_for is not None else watch, classify, decide=decide, edge_watch=edge_watch,
+                   decide_variant=decide_variant)
         table[tuple(combo)] = w.run()
     seen = {n: 0 for n in names}
     for bid in fn.order:
